@@ -161,7 +161,7 @@ class DslProp(PropBase):
                 if kind == "conditional" and any(type(v).__name__ == "Intervention" for v in a.get_variables()):
                     ref, rexc = None, "skip"   # conditioning an interventional term: which variables are summed is not defined by the property
                 elif kind == "conditional":
-                    comp = {v.get_base() for v in a.get_variables() if type(v).__name__ != "Intervention"} - set(rs)
+                    comp = {V(n) for n in free_names(a)} - set(rs)   # the variables the expression is a function of
                     ref, rexc = exc_code(lambda: Fraction(a, Sum(a, frozenset(comp))) if comp else Fraction(a, a))
                 elif kind == "normalize_marginalize":
                     ref, rexc = exc_code(lambda: Fraction(a, Sum(a, frozenset(rs))))
@@ -169,6 +169,8 @@ class DslProp(PropBase):
                     ref, rexc = exc_code(lambda: Sum(a, frozenset(rs)))
                 if rexc is None:
                     violation = sem_check(res, ref, kind)
+                    if violation and kind == "conditional":
+                        violation = "conditional() sums again over variables already bound by a sum inside the expression: " + violation
         elif kind in ("frac_simplify", "sum_simplify", "fraction_expand", "bayes_expand", "contract", "recursive_contract"):
             f = {"frac_simplify": lambda: a.simplify(), "sum_simplify": lambda: a.simplify(), "fraction_expand": lambda: fraction_expand(a),
                  "bayes_expand": lambda: bayes_expand(a), "contract": lambda: contract(a), "recursive_contract": lambda: recursive_contract(a)}[kind]
@@ -242,6 +244,22 @@ class DslProp(PropBase):
             if r["violation"]:
                 return {"case": c, "what": r["violation"], "key": r["key"]}
         return None
+
+
+def free_names(e, bound=frozenset()):
+    """Names of the variables an expression is a function of (those not bound by an enclosing sum)."""
+    from y0.dsl import Fraction, Probability, Product, QFactor, Sum
+    if isinstance(e, Probability):
+        return {v.name for v in (*e.children, *e.parents)} - bound
+    if isinstance(e, Sum):
+        return free_names(e.expression, bound | {r.name for r in e.ranges})
+    if isinstance(e, Product):
+        return set().union(*[free_names(x, bound) for x in e.expressions]) if e.expressions else set()
+    if isinstance(e, Fraction):
+        return free_names(e.numerator, bound) | free_names(e.denominator, bound)
+    if isinstance(e, QFactor):
+        return {v.name for v in (*e.domain, *e.codomain)} - bound
+    return set()
 
 
 def normalise_l2(s: str) -> str:
